@@ -236,6 +236,41 @@ func cloneFacts(fs []scandfa.Fact) []scandfa.Fact { return append([]scandfa.Fact
 
 // kill removes every fact that mentions term t, len(t)/cap(t), or a term built on t (t.f, t[i]).
 func kill(fs []scandfa.Fact, t string) []scandfa.Fact {
+	// what the facts about t say about the rest is kept: a lower bound of t (coefficient +1) and an upper
+	// bound (coefficient -1) add up to a fact that no longer mentions t (Fourier-Motzkin step)
+	var lo, hi []scandfa.Fact
+	for _, f := range fs {
+		if f.Ne {
+			continue
+		}
+		direct, nested := f.E.T[t], false
+		for term := range f.E.T {
+			if term != t && termMentions(term, t) {
+				nested = true
+			}
+		}
+		if nested {
+			continue
+		}
+		switch direct {
+		case 1:
+			lo = append(lo, f)
+		case -1:
+			hi = append(hi, f)
+		}
+	}
+	var derived []scandfa.Fact
+	if len(lo)*len(hi) <= 64 {
+		for _, a := range lo {
+			for _, b := range hi {
+				e := a.E.Plus(b.E)
+				if len(e.T) > 0 {
+					derived = append(derived, scandfa.Fact{E: e})
+				}
+			}
+		}
+	}
+	fs = append(append([]scandfa.Fact{}, fs...), derived...)
 	var out []scandfa.Fact
 	for _, f := range fs {
 		hit := false
@@ -870,6 +905,16 @@ func (w *idxWalker) define(l, r ast.Expr, facts []scandfa.Fact) []scandfa.Fact {
 		if b, ok := lt.Underlying().(*types.Basic); ok && b.Info()&types.IsInteger != 0 {
 			if e, ok := w.pr.Lin(r); ok && !e.Mentions(t) {
 				eq(scandfa.TermExpr(t), e)
+				// a length (or a sum of lengths and non-negative constants) is not negative
+				nonNeg := e.K >= 0
+				for term, c := range e.T {
+					if !(c > 0 && (strings.HasPrefix(term, "len(") || strings.HasPrefix(term, "cap("))) {
+						nonNeg = false
+					}
+				}
+				if nonNeg {
+					facts = append(facts, scandfa.Fact{E: scandfa.TermExpr(t)})
+				}
 			}
 			return facts
 		}
